@@ -1,1 +1,150 @@
-/-! C16 — property theorems (stub: nothing proved yet). -/
+import B6.Lemmas.OverlayWorld
+/-!
+# C16 — Overlay worlds shadow the base consistently
+
+Model: `B6.Model.OverlayWorld` (ingest/overlay.go `overlayFeatures`, `OverlayWorld`; the same iterator
+serves `MutableOverlayWorld.FindFeatures`), mirroring the code after the repairs in
+/verif/fixes/C16-*.patch.
+
+* `overlay_merge`     search: for sorted duplicate-free inputs whose overlay IDs are in the filter, the
+                      iterator terminates and yields the sorted merge of the overlay's sequence with the
+                      base's sequence minus the filtered IDs: strictly increasing IDs (each ID once), an
+                      ID the overlay yields comes with the overlay's feature, a filtered base ID never
+                      appears (`overlay_refines_merge` is the same without sortedness: all sequences)
+* `each_once`         enumeration: every ID of the layered world exactly once, overlay version first
+* `lookup_shadow`, `has_shadow`, `location_shadow`   lookups = lookups in the shadowed feature set
+* `union_refs_partial` the by-ID unions (`FindReferences`, `FindRelationsByFeature`, …) = the referrers
+                      within the shadowed feature set — for layers that do not interleave along
+                      reference chains (`OW.independent`); outside that class:
+* `cross_layer_counterexample` (finding `layer_crossing`), and before the repairs:
+  `stale_relation_counterexample`, `location_fallthrough_counterexample`
+-/
+namespace B6.Props.C16
+open B6.Model.OverlayWorld B6.Lemmas.OverlayMerge B6.Lemmas.OverlayWorld B6.Spec.Referrers
+
+/-- **overlay_refines_merge.** For ALL base / overlay sequences and filters such that every overlay
+ID is in the filter (the filter is the overlay world itself, or `m.features`), `newOverlayFeatures`
+terminates without reading an exhausted iterator and yields exactly `merge`. -/
+theorem overlay_refines_merge {α : Type} (filter : Id → Bool) (base ov : List (Id × α))
+    (hf : ∀ x ∈ ov, filter x.1 = true) :
+    mergeIter filter base ov = some (merge ov (base.filter fun z => !filter z.1)) :=
+  mergeIter_eq filter base ov hf
+
+/-- **overlay_merge.** With sorted duplicate-free inputs: the output is strictly increasing in ID
+(so each ID occurs once), consists of the overlay's elements (flagged as read from the overlay, with
+the overlay's feature) and of the base's elements whose ID is not in the filter — nothing else. -/
+theorem overlay_merge {α : Type} (filter : Id → Bool) (base ov : List (Id × α))
+    (hb : SortedIds base) (ho : SortedIds ov) (hf : ∀ x ∈ ov, filter x.1 = true) :
+    ∃ out, mergeIter filter base ov = some out ∧ SortedIds out ∧ (out.map (·.1)).Nodup ∧
+      ∀ e, e ∈ out ↔ ((∃ x ∈ ov, e = (x.1, x.2, true)) ∨
+                      (∃ y ∈ base, filter y.1 = false ∧ e = (y.1, y.2, false))) := by
+  refine ⟨_, mergeIter_eq filter base ov hf, ?_, ?_, ?_⟩
+  · apply merge_sorted _ _ ho (sorted_filter _ _ hb)
+    intro x hx y hy e
+    have h1 := hf x hx
+    have h2 := (List.mem_filter.mp hy).2
+    rw [e] at h1
+    simp [h1] at h2
+  · apply sorted_nodup
+    apply merge_sorted _ _ ho (sorted_filter _ _ hb)
+    intro x hx y hy e
+    have h1 := hf x hx
+    have h2 := (List.mem_filter.mp hy).2
+    rw [e] at h1
+    simp [h1] at h2
+  · intro e
+    rw [mem_merge]
+    constructor
+    · rintro (h | ⟨y, hy, he⟩)
+      · exact Or.inl h
+      · obtain ⟨hy1, hy2⟩ := List.mem_filter.mp hy
+        exact Or.inr ⟨y, hy1, by simpa using hy2, he⟩
+    · rintro (h | ⟨y, hy, hfy, he⟩)
+      · exact Or.inl h
+      · exact Or.inr ⟨y, List.mem_filter.mpr ⟨hy, by simp [hfy]⟩, he⟩
+
+/-- non-vacuity: base p1 p2 w1, overlay p2 r1 (both sorted), filter = the overlay's IDs -/
+example : mergeIter (fun i => i = (0, 2) || i = (3, 1)) [((0, 1), "b"), ((0, 2), "b"), ((1, 1), "b")]
+    [((0, 2), "o"), ((3, 1), "o")] =
+    some [((0, 1), "b", false), ((0, 2), "o", true), ((1, 1), "b", false), ((3, 1), "o", true)] := by
+  decide
+
+/-- **lookup_shadow.** `FindFeatureByID` answers with the feature of the shadowed feature set. -/
+theorem lookup_shadow (w : OW) (id : Id) : w.get id = w.merged.find id := get_eq_merged w id
+
+theorem has_shadow (w : OW) (id : Id) : w.has id = w.merged.has id := has_eq_merged w id
+
+/-- **location_shadow.** `FindLocationByID` (after the repair) answers for the shadowed feature set:
+an overlay feature without a location hides the base's location. -/
+theorem location_shadow (w : OW) (id : Id) : w.loc id = w.merged.loc id := loc_eq_merged w id
+
+/-- **each_once.** `EachFeature` yields every ID of the layered world exactly once; a feature of the
+overlay is yielded as such, a base feature only when the overlay does not hold its ID. -/
+theorem each_once (w : OW) (ho : (w.overlay.map (·.id)).Nodup) (hb : (w.base.map (·.id)).Nodup) :
+    (w.each.map (·.id)).Nodup ∧
+    ∀ f, f ∈ w.each ↔ (f ∈ w.overlay ∨ (f ∈ w.base ∧ w.overlay.has f.id = false)) :=
+  ⟨each_nodup w ho hb, mem_each w⟩
+
+/-- the statement the property makes about the reference unions, for ALL pairs of layers -/
+def union_refs_statement : Prop :=
+  ∀ (w : OW) (id : Id) (typed : List Nat) (R : List Feat), w.findRefs id typed = some R →
+    ∀ s, (∃ f ∈ R, f.id = s) ↔ (ReachPlus (rl w.merged) id s ∧ typeOk typed s = true)
+
+/-- **union_refs_partial.** The statement holds for layers that do not interleave along reference
+chains (`OW.independent`, the class the driver reports as finding `layer_crossing` when violated). -/
+theorem union_refs_partial (w : OW) (hind : w.independent = true) (id : Id) (typed : List Nat) (R : List Feat)
+    (h : w.findRefs id typed = some R) :
+    (∀ s, (∃ f ∈ R, f.id = s) ↔ (ReachPlus (rl w.merged) id s ∧ typeOk typed s = true)) ∧
+    (∀ f ∈ R, f ∈ w.merged) :=
+  union_refs w hind id typed R h
+
+/-! ### witnesses -/
+
+def p1 : Id := (0, 1)
+def p2 : Id := (0, 2)
+def r5 : Id := (3, 5)
+def r6 : Id := (3, 6)
+
+/-- base: points 1, 2 and relation 5 = [point 1]; overlay: relation 5 = [point 2] -/
+def staleW : OW :=
+  { base := [⟨p1, "b", [], some 1⟩, ⟨p2, "b", [], some 2⟩, ⟨r5, "b", [p1], none⟩],
+    overlay := [⟨r5, "o", [p2], none⟩] }
+
+/-- **stale_relation_counterexample.** Before `fixes/C16-overlay-union-skip-shadowed.patch` the base
+version of relation 5 is returned for point 1 although the current relation 5 does not contain it;
+after it nothing is. -/
+theorem stale_relation_counterexample :
+    staleW.findRefsOld p1 [3] = some [⟨r5, "b", [p1], none⟩] ∧ staleW.specRefs p1 [3] = some [] ∧
+    staleW.findRefs p1 [3] = some [] := by decide
+
+example : staleW.independent = true := by decide
+
+/-- base: point 1, relation 5 = [point 1]; overlay: relation 6 = [relation 5] -/
+def crossW : OW :=
+  { base := [⟨p1, "b", [], some 1⟩, ⟨r5, "b", [p1], none⟩], overlay := [⟨r6, "o", [r5], none⟩] }
+
+/-- **cross_layer_counterexample** (finding `layer_crossing`): relation 6 references point 1 through
+relation 5 of the other layer; the union of the layers' own answers misses it. -/
+theorem cross_layer_counterexample :
+    crossW.independent = false ∧
+    crossW.findRefs p1 [3] = some [⟨r5, "b", [p1], none⟩] ∧
+    crossW.specRefs p1 [3] = some [⟨r5, "b", [p1], none⟩, ⟨r6, "o", [r5], none⟩] := by decide
+
+theorem union_refs_statement_false : ¬ union_refs_statement := by
+  intro h
+  have := (h crossW p1 [3] _ cross_layer_counterexample.2.1 r6).mpr
+    ⟨.step (.direct ⟨⟨r5, [p1]⟩, by decide, rfl, by decide⟩) ⟨⟨r6, [r5]⟩, by decide, rfl, by decide⟩, by decide⟩
+  obtain ⟨f, hf, he⟩ := this
+  simp only [List.mem_singleton] at hf
+  subst hf
+  exact absurd he (by decide)
+
+/-- base point 1 at slot 1; the overlay's point 1 has no location -/
+def locW : OW := { base := [⟨p1, "b", [], some 1⟩], overlay := [⟨p1, "o", [], none⟩] }
+
+/-- **location_fallthrough_counterexample.** Before `fixes/C16-location-shadow.patch` the base's
+location is returned for a point whose overlay version has none. -/
+theorem location_fallthrough_counterexample :
+    locW.locOld p1 = some 1 ∧ locW.merged.loc p1 = none ∧ locW.loc p1 = none := by decide
+
+end B6.Props.C16
